@@ -29,7 +29,7 @@ LEAN = dict(
 )
 
 FRACS = [0.0, 0.1, 0.2, 0.29, 0.3, 0.4, 0.5, 0.6, 0.7, 0.8, 0.9, 1.0]
-POWERS = [0.5, 0.51, 0.8, 1.0, 1.01, 0.0, -0.8, 2.0, 0.5000000000000001]
+POWERS = [0.5, 0.51, 0.8, 1.0, 1.01, 0.0, -0.8, 2.0, 0.5000000000000001, float("nan"), float("inf"), float("-inf")]
 
 
 def _imports():
